@@ -298,7 +298,19 @@ impl Formatter for CanonicalFormatter {
         let object = self.obj_mut()?;
         let key = std::mem::take(&mut object.next_key);
         let value = std::mem::take(&mut object.next_value);
-        object.obj.insert(unescaped_key(&key), (key, value));
+        // Two members whose keys are equal after normalization cannot both be represented; keeping
+        // only one of them would give different values the same canonical form (a signature over one
+        // would also cover the other).
+        if object
+            .obj
+            .insert(unescaped_key(&key), (key, value))
+            .is_some()
+        {
+            return Err(Error::new(
+                ErrorKind::InvalidInput,
+                "object has two members with the same key after normalization",
+            ));
+        }
         Ok(())
     }
 
